@@ -78,7 +78,7 @@ def run(ctx: Ctx):
     mc = {"MaxAtt": consts["MaxAtt"], "Codes": "{11, 2, 119, 81}", "AckNums": "{0, 3}"}
     ctx.model_check("AshHostOpenMC", "MC_AshHostOpen", constants=mc,
                     invariants=("DataRule", "RstackRule", "ErrorRule", "QuietRule", "ObserverAgrees"),
-                    dump_dot=dot, workers=4, required_actions=("Next",))
+                    dump_dot=dot, workers=4, required_actions=("Recv", "Recv2"))
     nodes, inits, edges = T.parse_dot(dot)
     # spanning tree: path (list of chunks) from the initial state to every node
     adj = {}
